@@ -101,3 +101,119 @@ Proof. intros. rewrite delay_seq_closed by assumption. apply Q.min_r. assumption
 (* it never decreases and never exceeds the maximum *)
 Lemma delay_seq_le_max (init F mx : Q) k : (0 <= init)%Q -> (init <= mx)%Q -> (1 <= F)%Q -> (delay_seq init F mx k <= mx)%Q.
 Proof. intros. rewrite delay_seq_closed by assumption. apply Q.le_min_r. Qed.
+
+(* ================================================================ Part 2: single steps, in EVERY state *)
+Definition running (s : state) : bool := negb (s_stopping s) && negb (s_shutting s) && is_some (s_startd s).
+
+Ltac step_open H :=
+  let o1 := fresh "o" in apply step_inv in H; destruct H as (o1 & H & ->); unfold handle in H; cbn zeta in H.
+Ltac clean_consts := change (is_cancel FK_OOR) with false in *; change (is_oor FK_OOR) with true in *;
+  change (is_cancel FK_KAFKA) with false in *; change (is_oor FK_KAFKA) with false in *;
+  rewrite ?andb_false_r in *.
+
+(* ---- offset-reset policy (consumer.py:870-874): an OffsetOutOfRange answer to a fetch, in whatever state it arrives *)
+Lemma reset_policy_step fuel s s' o :
+  s_req s = Some (R_FETCH, false) -> step fuel s (EReqFail FK_OOR) = (s', o) ->
+  match reset_off (s_cf s) with
+  | None => (* fail: nothing is re-scheduled, the fetch offset is kept, the start Deferred fails with the error *)
+      s_foff s' = s_foff s /\ s_req s' = None /\ s_rcall s' = s_rcall s /\ s_ridx s' = s_ridx s
+      /\ (s_startd s = Some false -> s_inapi s = 0 ->
+          o = [OStartD false FK_OOR; OEnd (s_lp s) (s_lc s)] /\ s_startd s' = Some true)
+  | Some t => (* earliest / latest: the next request asks the broker for that offset *)
+      s_foff s' = t /\ s_req s' = None
+      /\ (s_startd s = Some false -> s_inapi s = 0 -> exhausted s = true ->
+          o = [OStartD false FK_OOR; OEnd (s_lp s) (s_lc s)] /\ s_startd s' = Some true /\ s_rcall s' = s_rcall s)
+      /\ (running s = true -> s_rcall s = None -> exhausted s = false ->
+          o = [OSched T_RETRY (s_ridx s); OEnd (s_lp s) (s_lc s)] /\ s_rcall s' = Some 0
+          /\ s_ridx s' = s_ridx s + 1 /\ s_att s' = s_att s + 1 /\ s_startd s' = s_startd s)
+  end.
+Proof.
+  intros Hreq H. step_open H.
+  unfold handle_fetch_error, handle_offset_error, retry_fetch, startd_errback, exhausted, running in *.
+  mi H; clean_consts; try discriminate.
+  all: try match goal with D : reset_off _ = _ |- _ => rewrite D end.
+  all: fin.
+Qed.
+
+Definition special_off (t : Z) : bool := (t =? OFF_EARLIEST) || (t =? OFF_LATEST) || (t =? OFF_COMMITTED).
+
+(* the retry timer fires: the request that goes out is determined by the fetch offset alone (consumer.py:1075-1104) *)
+Lemma retry_fires_step fuel s s' o :
+  s_rcall s = Some 0 -> s_req s = None -> step fuel s EFireRetry = (s', o) ->
+  s_rcall s' = None /\ s_foff s' = s_foff s /\ s_buf s' = s_buf s /\ s_ridx s' = s_ridx s /\ s_att s' = s_att s /\
+  ((s_foff s = OFF_EARLIEST \/ s_foff s = OFF_LATEST) ->
+     o = [OOffReq (s_foff s); OEnd (s_lp s) (s_lc s)] /\ s_req s' = Some (R_OFFREQ, false)) /\
+  (special_off (s_foff s) = false ->
+     o = [OFetch (s_foff s) (s_buf s); OEnd (s_lp s) (s_lc s)] /\ s_req s' = Some (R_FETCH, false)).
+Proof.
+  intros Hrc Hreq H. step_open H. unfold do_fetch, startd_errback, special_off in *.
+  mi H; fin.
+  all: try (destruct H as [H|H]; rewrite H in *; discriminate).
+Qed.
+
+(* a successful OffsetRequest / OffsetFetchRequest answer: back-off and attempt count start again, the fetch goes out *)
+Lemma offset_reply_step fuel s s' o kd v :
+  s_req s = Some (kd, false) -> kd = R_OFFREQ \/ kd = R_OFFFETCH -> step fuel s (EReqOk v) = (s', o) ->
+  s_ridx s' = 0 /\ s_att s' = 1 /\ s_buf s' = s_buf s /\
+  (kd = R_OFFREQ -> s_foff s' = v) /\
+  (kd = R_OFFFETCH -> v <> -1 -> s_foff s' = v + 1 /\ s_lc s' = Some v) /\
+  (kd = R_OFFFETCH -> v = -1 -> s_foff s' = if c_reset (s_cf s) =? 2 then OFF_LATEST else OFF_EARLIEST) /\
+  (kd = R_OFFREQ -> special_off v = false -> s_rcall s = None ->
+     o = [OFetch v (s_buf s); OEnd (s_lp s) (s_lc s)] /\ s_req s' = Some (R_FETCH, false)).
+Proof.
+  intros Hreq Hkd H. step_open H. unfold handle_offset_response, do_fetch, startd_errback, special_off in *.
+  destruct Hkd; subst kd; mi H; fin.
+Qed.
+
+(* a failed offset / fetch request (any failure kind but the out-of-range special case): consumer.py:643-675, 849-898 *)
+Lemma failure_step fuel s s' o kd fk :
+  s_req s = Some (kd, false) -> (kd = R_FETCH -> is_oor fk = false) -> s_stopping s = false ->
+  step fuel s (EReqFail fk) = (s', o) ->
+  s_req s' = None /\ s_foff s' = s_foff s /\ s_buf s' = s_buf s /\
+  (exhausted s = true ->                                   (* the limit is reached: report, do not retry *)
+     s_rcall s' = s_rcall s /\ s_ridx s' = s_ridx s /\ s_att s' = s_att s /\
+     (s_startd s = Some false -> s_inapi s = 0 ->
+        o = [OStartD false fk; OEnd (s_lp s) (s_lc s)] /\ s_startd s' = Some true)) /\
+  (exhausted s = false -> running s = true -> s_rcall s = None ->     (* retry after the s_ridx-th delay *)
+     o = [OSched T_RETRY (s_ridx s); OEnd (s_lp s) (s_lc s)] /\ s_rcall s' = Some 0 /\
+     s_ridx s' = s_ridx s + 1 /\ s_att s' = s_att s + 1 /\ s_startd s' = s_startd s).
+Proof.
+  intros Hreq Hoor Hst H. step_open H.
+  unfold handle_fetch_error, handle_offset_error, retry_fetch, startd_errback, exhausted, running in *.
+  mi H; fin.
+  all: try (rewrite Hoor in *; [discriminate | reflexivity]).
+Qed.
+
+(* with an attempt limit of 0 the count never ends the consumer (outside a shutdown in progress, see ConsumerInv) *)
+Lemma unlimited_never_exhausted s : s_maxatt s = 0 -> exhausted s = false.
+Proof. unfold exhausted. intros ->. reflexivity. Qed.
+Lemma limited_exhausted_iff s : 0 < s_maxatt s -> (exhausted s = true <-> s_maxatt s <= s_att s).
+Proof.
+  unfold exhausted. intro H. destruct (s_maxatt s =? 0) eqn:E; [apply Z.eqb_eq in E; lia|].
+  cbn [negb andb]. apply Z.leb_le.
+Qed.
+
+(* ---- buffer growth inside the consumer: the answer to a fetch holds only a message that does not fit.
+   The fetch offset is unchanged and the re-fetch is scheduled at once (delay 0): the message is not skipped. *)
+Lemma growth_step (f : nat) s s' o b :
+  s_req s = Some (R_FETCH, false) -> s_mblock s = None -> grow_buffer (s_buf s) (c_maxbuf (s_cf s)) = Some b ->
+  step (S f) s (EFetchOk [] true) = (s', o) ->
+  s_foff s' = s_foff s /\ s_req s' = None /\ s_buf s' = b /\ s_startd s' = s_startd s /\ s_ridx s' = 0 /\
+  (running s = true -> s_rcall s = None ->
+     o = [OSched T_RETRY (-1); OEnd (s_lp s) (s_lc s)] /\ s_rcall s' = Some 0).
+Proof.
+  intros Hreq Hmb Hg H. step_open H. mi H.
+  all: unfold retry_fetch, running in *; mi_all; fin.
+Qed.
+
+(* already at the maximum: the start Deferred fails with ConsumerFetchSizeTooSmall, nothing is re-scheduled *)
+Lemma growth_fails_step (f : nat) s s' o :
+  s_req s = Some (R_FETCH, false) -> s_mblock s = None -> grow_buffer (s_buf s) (c_maxbuf (s_cf s)) = None ->
+  s_startd s = Some false -> s_inapi s = 0 ->
+  step (S f) s (EFetchOk [] true) = (s', o) ->
+  o = [OStartD false FK_TOOSMALL; OEnd (s_lp s) (s_lc s)] /\ s_startd s' = Some true /\
+  s_foff s' = s_foff s /\ s_req s' = None /\ s_buf s' = s_buf s /\ s_rcall s' = s_rcall s /\ s_ridx s' = 0.
+Proof.
+  intros Hreq Hmb Hg Hsd Hin H. step_open H. mi H.
+  all: unfold startd_errback in *; mi_all; fin.
+Qed.
